@@ -1,8 +1,573 @@
-//! Family "atomic" (stub: not implemented yet).
-use crate::Ctx;
-use serde_json::Value;
+//! Family "atomic": concurrent writers on AtomicBitFieldVec / AtomicBitVec
+//! under a deterministic scheduler (property C13, spec/Atomic.tla).
+//!
+//! An episode describes an *instance* (word size `w`, field `width`, `flen`
+//! fields over `nfw` words with initial contents `finit`; a bit vector of
+//! `blen` bits over `nbw` words with `binit`; `prog`: for every thread its
+//! list of jobs) and its `ops` are the schedule:
+//!
+//!   {"op":"step","t":T}     thread T (1-based) executes its next atomic instruction
+//!   {"op":"run","policy":P,"seed":S,"n":N,...}  the executor chooses threads by
+//!                           policy P for N steps (0: until all are done) and
+//!                           emits one "step" event per step
+//!   {"op":"end"}            remaining threads are run to completion (lowest
+//!                           id first, one "step" event per step), joined, and
+//!                           the final contents are logged
+//!
+//! Every "step" event records what happened, never what should have happened:
+//! the thread, the hook kind and word index of the instruction it executed,
+//! the contents of that word afterwards (`cur`), every word of either vector
+//! that differs from the previous snapshot (`chg`), where the thread parked
+//! next (`nx`, empty when it finished) and the value returned by a swap / get
+//! that completed (`r`). Trace_Atomic.tla decides.
+//!
+//! mode "vec" (default): the jobs run on an AtomicBitFieldVec and an
+//! AtomicBitVec owned by the executor (memory visible after every step).
+//! mode "efb": the jobs are `EliasFanoConcurrentBuilder::set(idx, x)` calls on
+//! a real builder; its vectors are private, so steps carry no memory (only
+//! hook, next hook), and the end event carries the low/high bits and the
+//! values of the built structure next to those of the sequential builder.
 
-pub fn run(_ep: &Value, _ctx: &mut Ctx) {
-    eprintln!("family atomic not implemented");
-    std::process::exit(2);
+use crate::util::*;
+use crate::{guard, Ctx};
+use serde_json::{json, Value};
+use std::sync::atomic::{
+    AtomicU16, AtomicU32, AtomicU64, AtomicU8, AtomicUsize, Ordering,
+};
+use std::sync::Mutex;
+use sux::bits::{AtomicBitFieldVec, AtomicBitVec, BitFieldVec, BitVec};
+use sux::dict::{EliasFano, EliasFanoBuilder, EliasFanoConcurrentBuilder};
+use sux::traits::{AtomicBitFieldSlice, BitFieldSlice, BitFieldSliceCore};
+
+#[path = "sched.rs"]
+mod sched;
+use sched::{Sched, Status};
+
+/// The operations of the bit-field vector used here, for every word type.
+trait FieldOps: Sync {
+    fn set(&self, idx: usize, val: u64, ord: Ordering);
+    unsafe fn set_unchecked(&self, idx: usize, val: u64, ord: Ordering);
+    fn get(&self, idx: usize, ord: Ordering) -> u64;
+    fn snapshot(&self) -> Vec<u64>;
+    /// conversion to the non-atomic form: (value of every field, backing words)
+    fn into_plain(self: Box<Self>) -> (Vec<u64>, Vec<u64>);
+}
+
+macro_rules! field_ops {
+    ($w:ty, $a:ty) => {
+        impl FieldOps for AtomicBitFieldVec<$w, Vec<$a>> {
+            fn set(&self, idx: usize, val: u64, ord: Ordering) {
+                self.set_atomic(idx, val as $w, ord)
+            }
+            unsafe fn set_unchecked(&self, idx: usize, val: u64, ord: Ordering) {
+                self.set_atomic_unchecked(idx, val as $w, ord)
+            }
+            fn get(&self, idx: usize, ord: Ordering) -> u64 {
+                self.get_atomic(idx, ord) as u64
+            }
+            fn snapshot(&self) -> Vec<u64> {
+                self.as_slice().iter().map(|x| x.load(Ordering::SeqCst) as u64).collect()
+            }
+            fn into_plain(self: Box<Self>) -> (Vec<u64>, Vec<u64>) {
+                let n = BitFieldSliceCore::<$a>::len(&*self);
+                let p: BitFieldVec<$w, Vec<$w>> = (*self).into();
+                let vals = (0..n).map(|i| p.get(i) as u64).collect();
+                let words = p.as_slice().iter().map(|x| *x as u64).collect();
+                (vals, words)
+            }
+        }
+    };
+}
+field_ops!(u8, AtomicU8);
+field_ops!(u16, AtomicU16);
+field_ops!(u32, AtomicU32);
+field_ops!(u64, AtomicU64);
+field_ops!(usize, AtomicUsize);
+
+fn make_field(w: u64, usize_word: bool, words: &[u64], width: usize, len: usize) -> Box<dyn FieldOps> {
+    macro_rules! mk {
+        ($w:ty, $a:ty) => {
+            Box::new(unsafe {
+                AtomicBitFieldVec::<$w, Vec<$a>>::from_raw_parts(
+                    words.iter().map(|x| <$a>::new(*x as $w)).collect(),
+                    width,
+                    len,
+                )
+            })
+        };
+    }
+    match (w, usize_word) {
+        (8, _) => mk!(u8, AtomicU8),
+        (16, _) => mk!(u16, AtomicU16),
+        (32, _) => mk!(u32, AtomicU32),
+        (64, false) => mk!(u64, AtomicU64),
+        (64, true) => mk!(usize, AtomicUsize),
+        _ => {
+            eprintln!("atomic: unsupported word size {w}");
+            std::process::exit(2);
+        }
+    }
+}
+
+#[derive(Clone)]
+struct Job {
+    kind: String,
+    idx: usize,
+    val: u64,
+    flag: bool, // swapbit: the value to store
+    hi: usize,
+    x: usize, // efb: the value passed to EliasFanoConcurrentBuilder::set
+}
+
+fn word_of_bits(v: &Value) -> u64 {
+    u128_of_bits(v) as u64
+}
+
+fn bits(x: u64) -> Vec<u32> {
+    bits_of_u128(x as u128)
+}
+
+fn per_word(words: &[u64]) -> Value {
+    Value::Array(words.iter().map(|x| json!(bits(*x))).collect())
+}
+
+fn per_usize_word(words: &[usize]) -> Value {
+    Value::Array(words.iter().map(|x| json!(bits(*x as u64))).collect())
+}
+
+const KINDS: [&str; 4] = ["bf_load", "bf_cas", "bv_load", "bv_rmw"];
+
+struct SplitMix(u64);
+impl SplitMix {
+    fn next(&mut self) -> u64 {
+        self.0 = self.0.wrapping_add(0x9E3779B97F4A7C15);
+        let mut z = self.0;
+        z = (z ^ (z >> 30)).wrapping_mul(0xBF58476D1CE4E5B9);
+        z = (z ^ (z >> 27)).wrapping_mul(0x94D049BB133111EB);
+        z ^ (z >> 31)
+    }
+    fn below(&mut self, n: usize) -> usize {
+        (self.next() % n as u64) as usize
+    }
+}
+
+/// Interprets the schedule: calls `step(t)` (t 0-based) once per scheduler
+/// step, then runs whatever is left to completion, lowest thread first.
+/// Only *which thread runs next* is decided here.
+fn drive(ops: &[Value], nt: usize, s: &Sched, step: &mut dyn FnMut(usize)) {
+    for op in ops {
+        match op["op"].as_str().unwrap() {
+            "step" => {
+                let t = get_usize(op, "t");
+                if t == 0 || t > nt {
+                    eprintln!("atomic: step of unknown thread {t}");
+                    std::process::exit(2);
+                }
+                step(t - 1);
+            }
+            "run" => {
+                let policy = op["policy"].as_str().unwrap();
+                let n = op.get("n").and_then(|v| v.as_u64()).unwrap_or(0) as usize;
+                let q = op.get("q").and_then(|v| v.as_u64()).unwrap_or(1).max(1) as usize;
+                let mut rng = SplitMix(op.get("seed").and_then(|v| v.as_u64()).unwrap_or(0));
+                // pct: priorities (highest first) and the steps after which the
+                // thread that just ran drops to the lowest priority
+                let mut prio: Vec<usize> = match op.get("prio").and_then(|v| v.as_array()) {
+                    Some(a) => a.iter().map(|x| x.as_u64().unwrap() as usize - 1).collect(),
+                    None => (0..nt).collect(),
+                };
+                for t in 0..nt {
+                    if !prio.contains(&t) {
+                        prio.push(t);
+                    }
+                }
+                let chg: Vec<usize> = op
+                    .get("chg")
+                    .and_then(|v| v.as_array())
+                    .map_or(vec![], |a| a.iter().map(|x| x.as_u64().unwrap() as usize).collect());
+                let mut steps = 0usize;
+                let mut cur: Option<usize> = None; // burst / rr: thread being run
+                let mut left = 0usize;
+                loop {
+                    let alive: Vec<usize> = (0..nt).filter(|t| s.status(*t) != Status::Done).collect();
+                    if alive.is_empty() || (n != 0 && steps >= n) {
+                        break;
+                    }
+                    let t = match policy {
+                        "rand" => alive[rng.below(alive.len())],
+                        "lowest" => alive[0],
+                        "highest" => alive[alive.len() - 1],
+                        "pct" => *prio.iter().find(|t| alive.contains(t)).unwrap(),
+                        "burst" | "rr" => {
+                            if left == 0 || cur.map_or(true, |c| !alive.contains(&c)) {
+                                cur = Some(if policy == "burst" {
+                                    left = 1 + rng.below(q);
+                                    alive[rng.below(alive.len())]
+                                } else {
+                                    left = q;
+                                    // next alive thread after the current one
+                                    let c = cur.map_or(nt - 1, |c| c);
+                                    *alive.iter().find(|t| **t > c).unwrap_or(&alive[0])
+                                });
+                            }
+                            left -= 1;
+                            cur.unwrap()
+                        }
+                        p => {
+                            eprintln!("atomic: unknown policy {p}");
+                            std::process::exit(2);
+                        }
+                    };
+                    step(t);
+                    steps += 1;
+                    if policy == "pct" && chg.contains(&steps) {
+                        prio.retain(|x| *x != t);
+                        prio.push(t);
+                    }
+                }
+            }
+            "end" => break,
+            o => {
+                eprintln!("atomic: unknown op {o}");
+                std::process::exit(2);
+            }
+        }
+    }
+    while let Some(t) = (0..nt).find(|t| s.status(*t) != Status::Done) {
+        step(t);
+    }
+}
+
+fn nx_of(after: Status) -> Value {
+    match after {
+        Status::Parked(k2, w2) => json!([KINDS[k2 as usize & 3], w2]),
+        _ => json!([]),
+    }
+}
+
+type Outs = Vec<Mutex<Vec<(bool, Option<bool>)>>>;
+
+fn outs_json(outs: &Outs) -> Vec<Value> {
+    outs.iter()
+        .map(|m| {
+            Value::Array(
+                m.lock()
+                    .unwrap()
+                    .iter()
+                    .map(|(ok, r)| json!([if *ok { "ret" } else { "panic" }, opt(*r)]))
+                    .collect(),
+            )
+        })
+        .collect()
+}
+
+pub fn run(ep: &Value, ctx: &mut Ctx) {
+    sched::install();
+    let w = get_usize(ep, "w") as u64;
+    let width = get_usize(ep, "width");
+    let flen = get_usize(ep, "flen");
+    let nfw = get_usize(ep, "nfw");
+    let blen = get_usize(ep, "blen");
+    let nbw = get_usize(ep, "nbw");
+    let efb = ep.get("mode").and_then(|v| v.as_str()) == Some("efb");
+    let ord = match ep["ord"].as_str().unwrap_or("relaxed") {
+        "seqcst" => Ordering::SeqCst,
+        "acquire" => Ordering::Acquire,
+        _ => Ordering::Relaxed,
+    };
+    let usize_word = ep.get("wt").and_then(|v| v.as_str()) != Some("u64");
+    let finit: Vec<u64> = ep["finit"].as_array().unwrap().iter().map(word_of_bits).collect();
+    let binit: Vec<u64> = ep["binit"].as_array().unwrap().iter().map(word_of_bits).collect();
+    // scripts must stay inside what from_raw_parts requires
+    if finit.len() != nfw || binit.len() != nbw || flen * width > nfw * w as usize || blen > nbw * 64 || nfw == 0 {
+        eprintln!("atomic: malformed instance");
+        std::process::exit(2);
+    }
+    let progs: Vec<Vec<Job>> = ep["prog"]
+        .as_array()
+        .unwrap()
+        .iter()
+        .map(|p| {
+            p.as_array()
+                .unwrap()
+                .iter()
+                .map(|j| Job {
+                    kind: j["kind"].as_str().unwrap().to_string(),
+                    idx: j["idx"].as_u64().unwrap() as usize,
+                    val: word_of_bits(&j["val"]),
+                    flag: j["val"].as_array().map_or(false, |a| !a.is_empty()),
+                    hi: j["hi"].as_u64().unwrap_or(0) as usize,
+                    x: j.get("x").and_then(|v| v.as_u64()).unwrap_or(0) as usize,
+                })
+                .collect()
+        })
+        .collect();
+    for p in &progs {
+        for j in p {
+            // efset goes through set_atomic_unchecked, as the builder does: its
+            // arguments must be in range (the generators guarantee it)
+            if j.kind == "efset"
+                && (j.idx >= flen || j.hi >= blen || (width < 64 && j.val >> width != 0))
+            {
+                eprintln!("atomic: efset job outside its domain");
+                std::process::exit(2);
+            }
+            if efb && j.kind != "efset" {
+                eprintln!("atomic: mode efb takes efset jobs only");
+                std::process::exit(2);
+            }
+        }
+    }
+    let nt = progs.len();
+
+    let mut hdr = serde_json::Map::new();
+    hdr.insert("op".into(), json!("BEGIN"));
+    for k in [
+        "fam", "src", "mode", "w", "width", "flen", "nfw", "blen", "nbw", "finit", "binit", "prog", "ord", "wt",
+        "n", "u",
+    ] {
+        if let Some(v) = ep.get(k) {
+            hdr.insert(k.into(), v.clone());
+        }
+    }
+    if !hdr.contains_key("mode") {
+        hdr.insert("mode".into(), json!("vec"));
+    }
+    let hdr = Value::Object(hdr);
+    let ops = ep["ops"].as_array().unwrap();
+    // per thread: (outcome, returned bit) of every job completed so far
+    let outs: Outs = (0..nt).map(|_| Mutex::new(Vec::new())).collect();
+    let s = Sched::new(nt);
+
+    if efb {
+        run_efb(ep, ctx, &hdr, ops, &progs, &outs, &s);
+        return;
+    }
+
+    let field: Box<dyn FieldOps> = make_field(w, usize_word, &finit, width, flen);
+    let bitv: AtomicBitVec<Vec<AtomicUsize>> = unsafe {
+        AtomicBitVec::from_raw_parts(binit.iter().map(|x| AtomicUsize::new(*x as usize)).collect(), blen)
+    };
+    let bsnap = |b: &AtomicBitVec<Vec<AtomicUsize>>| -> Vec<u64> {
+        let s: &[AtomicUsize] = b.as_ref();
+        s.iter().map(|x| x.load(Ordering::SeqCst) as u64).collect()
+    };
+
+    // header: the instance (copied from the script) and the memory as observed
+    ctx.begin(&hdr);
+    ctx.emit(&hdr, "ret", json!({"f0": per_word(&field.snapshot()), "b0": per_word(&bsnap(&bitv))}));
+
+    std::thread::scope(|scope| {
+        for (tid, prog) in progs.iter().enumerate() {
+            let s = s.clone();
+            let field = &*field;
+            let bitv = &bitv;
+            let outs = &outs;
+            scope.spawn(move || {
+                let _me = s.enter(tid);
+                for j in prog {
+                    let r = guard(|| match j.kind.as_str() {
+                        "setfield" => {
+                            field.set(j.idx, j.val, ord);
+                            None
+                        }
+                        "efset" => {
+                            // the body of EliasFanoConcurrentBuilder::set
+                            unsafe { field.set_unchecked(j.idx, j.val, ord) };
+                            bitv.set(j.hi, true, ord);
+                            None
+                        }
+                        "setbit" => {
+                            bitv.set(j.idx, true, ord);
+                            None
+                        }
+                        "clearbit" => {
+                            bitv.set(j.idx, false, ord);
+                            None
+                        }
+                        "swapbit" => Some(bitv.swap(j.idx, j.flag, ord)),
+                        "getbit" => Some(bitv.get(j.idx, ord)),
+                        k => {
+                            eprintln!("atomic: unknown job kind {k}");
+                            std::process::exit(2);
+                        }
+                    });
+                    outs[tid].lock().unwrap().push(match r {
+                        Ok(b) => (true, b),
+                        Err(_) => (false, None),
+                    });
+                }
+            });
+        }
+        s.settle();
+
+        let mut fprev = field.snapshot();
+        let mut bprev = bsnap(&bitv);
+        // jobs that ended before the first instruction of their thread
+        let mut seen_outs: Vec<usize> = (0..nt).map(|t| outs[t].lock().unwrap().len()).collect();
+
+        // one scheduler step of thread t (0-based), one event
+        let mut do_step = |t: usize| {
+            let op = json!({"op": "step", "t": t + 1});
+            ctx.begin(&op);
+            match s.status(t) {
+                Status::Done => ctx.emit(&op, "na", json!({})),
+                Status::Running => unreachable!(),
+                Status::Parked(kind, word) => {
+                    let after = s.step(t);
+                    let f = field.snapshot();
+                    let b = bsnap(&bitv);
+                    let mut chg = Vec::new();
+                    for k in 0..f.len() {
+                        if f[k] != fprev[k] {
+                            chg.push(json!({"v": "f", "k": k, "bits": bits(f[k])}));
+                        }
+                    }
+                    for k in 0..b.len() {
+                        if b[k] != bprev[k] {
+                            chg.push(json!({"v": "b", "k": k, "bits": bits(b[k])}));
+                        }
+                    }
+                    let touched = if kind <= 1 { <[u64]>::get(&f, word) } else { <[u64]>::get(&b, word) };
+                    let cur = match touched {
+                        Some(x) => json!(bits(*x)),
+                        None => json!([-1]),
+                    };
+                    let o = outs[t].lock().unwrap();
+                    let r: Vec<bool> = o[seen_outs[t]..].iter().filter_map(|x| x.1).collect();
+                    seen_outs[t] = o.len();
+                    drop(o);
+                    fprev = f;
+                    bprev = b;
+                    ctx.emit(
+                        &op,
+                        "ret",
+                        json!({"kind": KINDS[kind as usize & 3], "word": word, "cur": cur, "chg": chg,
+                               "nx": nx_of(after), "r": r}),
+                    );
+                }
+            }
+        };
+        drive(ops, nt, &s, &mut do_step);
+    });
+
+    // all threads are joined: final contents, through every observation path
+    let op = json!({"op": "end"});
+    ctx.begin(&op);
+    let fmem = field.snapshot();
+    let bmem = bsnap(&bitv);
+    let fget: Vec<Value> = (0..flen)
+        .map(|i| match guard(|| field.get(i, ord)) {
+            Ok(x) => json!(bits(x)),
+            Err(_) => json!([-1]),
+        })
+        .collect();
+    let bget: Vec<usize> = (0..blen).filter(|i| bitv.get(*i, ord)).collect();
+    let (fconv, fconvw) = field.into_plain();
+    let plain: BitVec<Vec<usize>> = bitv.into();
+    let bconv: Vec<usize> = (0..blen).filter(|i| plain.get(*i)).collect();
+    let bconvw: Vec<u64> = AsRef::<[usize]>::as_ref(&plain).iter().map(|x| *x as u64).collect();
+    ctx.emit(
+        &op,
+        "ret",
+        json!({
+            "fmem": per_word(&fmem), "bmem": per_word(&bmem),
+            "fget": fget, "bget": bget,
+            "fconv": fconv.iter().map(|x| json!(bits(*x))).collect::<Vec<_>>(),
+            "fconvw": per_word(&fconvw), "bconv": bconv, "bconvw": per_word(&bconvw),
+            "outs": outs_json(&outs),
+        }),
+    );
+}
+
+/// What can be seen of a built Elias-Fano structure: width and words of the
+/// low bits, length and words of the high bits, and the values it iterates.
+fn ef_parts(ef: EliasFano) -> Value {
+    let vals: Vec<usize> = ef.iter().collect();
+    let n = ef.len();
+    let mut low = json!(null);
+    let ef = unsafe {
+        ef.map_low_bits(|l| {
+            low = json!({"lw": BitFieldSliceCore::<usize>::bit_width(&l), "llen": BitFieldSliceCore::<usize>::len(&l),
+                         "low": per_usize_word(l.as_slice())});
+            l
+        })
+    };
+    let mut high = json!(null);
+    let _ = unsafe {
+        ef.map_high_bits(|h| {
+            high = json!({"hlen": h.len(), "high": per_usize_word(AsRef::<[usize]>::as_ref(&h))});
+            h
+        })
+    };
+    json!({"n": n, "vals": vals, "l": low, "h": high})
+}
+
+/// mode "efb": the threads call the real `EliasFanoConcurrentBuilder::set`.
+fn run_efb(ep: &Value, ctx: &mut Ctx, hdr: &Value, ops: &[Value], progs: &[Vec<Job>], outs: &Outs, s: &std::sync::Arc<Sched>) {
+    let n = get_usize(ep, "n");
+    let u = get_usize(ep, "u");
+    let nt = progs.len();
+    ctx.begin(hdr);
+    let cb = match guard(|| EliasFanoConcurrentBuilder::new(n, u)) {
+        Ok(b) => b,
+        Err(m) => {
+            ctx.emit(hdr, "panic", json!({"msg": m}));
+            return;
+        }
+    };
+    ctx.emit(hdr, "ret", json!({}));
+    std::thread::scope(|scope| {
+        for (tid, prog) in progs.iter().enumerate() {
+            let s = s.clone();
+            let cb = &cb;
+            scope.spawn(move || {
+                let _me = s.enter(tid);
+                for j in prog {
+                    let r = guard(|| unsafe { cb.set(j.idx, j.x) });
+                    outs[tid].lock().unwrap().push((r.is_ok(), None));
+                }
+            });
+        }
+        s.settle();
+        let mut do_step = |t: usize| {
+            let op = json!({"op": "step", "t": t + 1});
+            ctx.begin(&op);
+            match s.status(t) {
+                Status::Done => ctx.emit(&op, "na", json!({})),
+                Status::Running => unreachable!(),
+                Status::Parked(kind, word) => {
+                    let after = s.step(t);
+                    let r: Vec<bool> = vec![];
+                    ctx.emit(
+                        &op,
+                        "ret",
+                        json!({"kind": KINDS[kind as usize & 3], "word": word, "nx": nx_of(after), "r": r}),
+                    );
+                }
+            }
+        };
+        drive(ops, nt, s, &mut do_step);
+    });
+    let op = json!({"op": "end"});
+    ctx.begin(&op);
+    let conc = guard(|| ef_parts(cb.build()));
+    // the sequential builder over the same values, in index order
+    let mut xs: Vec<(usize, usize)> = progs.iter().flatten().map(|j| (j.idx, j.x)).collect();
+    xs.sort();
+    let seq = guard(|| {
+        let mut b = EliasFanoBuilder::new(n, u);
+        for (_, x) in &xs {
+            b.push(*x);
+        }
+        ef_parts(b.build())
+    });
+    match (conc, seq) {
+        (Ok(c), Ok(q)) => ctx.emit(&op, "ret", json!({"cb": c, "sb": q, "outs": outs_json(outs)})),
+        (c, q) => ctx.emit(
+            &op,
+            "panic",
+            json!({"msg": format!("{:?} / {:?}", c.err(), q.err()), "outs": outs_json(outs)}),
+        ),
+    }
 }
